@@ -36,6 +36,7 @@ const (
 	aFieldRef       // address of field C (int) of abstract object Idx
 	aList           // an immutable list of known values (strings.Split of a constant)
 	aElemRef        // address of element C (int) of the list held in L
+	aCell           // address of a variable captured by a function literal (cell Idx of the evaluator)
 )
 
 type aval struct {
@@ -68,6 +69,8 @@ func (a aval) String() string {
 		return "elem#" + a.C.ExactString()
 	case aPtr:
 		return fmt.Sprintf("ptr#%d", a.Idx)
+	case aCell:
+		return fmt.Sprintf("cell#%d", a.Idx)
 	case aFieldRef:
 		return fmt.Sprintf("field#%d.%s", a.Idx, a.C.ExactString())
 	case aConst:
@@ -133,6 +136,7 @@ type tagEval struct {
 	mapUpdateObs func(u *ssa.MapUpdate, m, k, v aval)
 	makeMapHook  func(mm *ssa.MakeMap) (aval, bool)
 	heap         map[int64]map[int]aval
+	cells        map[int64]aval // variables captured by function literals
 	nextObj      int64
 	heapForked   bool
 	// unevaluated counts calls to library functions with a body that were not followed
@@ -549,9 +553,8 @@ func (te *tagEval) run(fr *frame, b *ssa.BasicBlock, pred *ssa.BasicBlock, depth
 							fr.env[x] = xv.L[k]
 						}
 					}
-					if xv.K == aPtr && xv.C != nil {
-						// the cell of a captured variable
-						if v, ok := te.heap[xv.Idx][0]; ok {
+					if xv.K == aCell {
+						if v, ok := te.cells[xv.Idx]; ok {
 							fr.env[x] = v
 						}
 					}
@@ -616,12 +619,15 @@ func (te *tagEval) run(fr *frame, b *ssa.BasicBlock, pred *ssa.BasicBlock, depth
 				if te.heap != nil {
 					if _, isStruct := x.Type().Underlying().(*types.Pointer).Elem().Underlying().(*types.Struct); isStruct {
 						fr.env[x] = te.newObj(nil)
-					} else if x.Heap {
-						// a variable captured by a function literal: a cell with one slot
-						cell := te.newObj(nil)
-						cell.C = constant.MakeInt64(0)
-						fr.env[x] = cell
 					}
+				}
+				if _, isStruct := x.Type().Underlying().(*types.Pointer).Elem().Underlying().(*types.Struct); !isStruct && x.Heap {
+					// a variable captured by a function literal: a cell of its own
+					if te.cells == nil {
+						te.cells = map[int64]aval{}
+					}
+					te.nextObj++
+					fr.env[x] = aval{K: aCell, Idx: te.nextObj}
 				}
 			case *ssa.MakeClosure:
 				if f, ok := x.Fn.(*ssa.Function); ok {
@@ -687,8 +693,8 @@ func (te *tagEval) run(fr *frame, b *ssa.BasicBlock, pred *ssa.BasicBlock, depth
 				if av := te.val(fr, x.Addr); av.K == aFieldRef {
 					f, _ := constant.Int64Val(av.C)
 					te.heap[av.Idx][int(f)] = te.val(fr, x.Val)
-				} else if av.K == aPtr && av.C != nil {
-					te.heap[av.Idx][0] = te.val(fr, x.Val)
+				} else if av.K == aCell {
+					te.cells[av.Idx] = te.val(fr, x.Val)
 				}
 				if te.storeObs != nil {
 					te.storeObs(x, te.val(fr, x.Val), func(v ssa.Value) aval { return te.val(fr, v) })
